@@ -119,8 +119,16 @@ ApplyUpdate(m, o, e, step) ==
               THEN LET k == Len(m2.outOn)
                        st == Sat(m2.phi, m2.hist, k, m2.cfg.S)[k] IN
                    IF (e.ret > 0 /\ ~st) \/ (e.ret < 0 /\ st) THEN F("update.sign", step, st, e.ret) ELSE Ok
+              ELSE Ok
+        \* C07 (sign) for pastified monitors: after the horizon the value at step k speaks about sample k - h of the original
+        \* formula on the trace seen so far (all its future windows end inside that trace); past-over-future is finding F-03c
+        f5 == IF f0 = Ok /\ m2.inst # m2.phi /\ ~PastOverFuture(m2.phi) /\ SignApplies(m2.phi) /\ e.ret # Bad
+                    /\ Len(m2.outOn) > Hor(m2.phi) /\ ~SatUndef(m2.phi, m2.hist, Len(m2.outOn), m2.cfg.S)
+              THEN LET k == Len(m2.outOn)
+                       st == Sat(m2.phi, m2.hist, k, m2.cfg.S)[k - Hor(m2.phi)] IN
+                   IF (e.ret > 0 /\ ~st) \/ (e.ret < 0 /\ st) THEN F("update.sign", step, st, e.ret) ELSE Ok
               ELSE Ok IN
-    R(m2, o2, f0 \o f1 \o f2 \o f3 \o f4, IF und THEN 1 ELSE 0)
+    R(m2, o2, f0 \o f1 \o f2 \o f3 \o f4 \o f5, IF und THEN 1 ELSE 0)
 
 ApplyReset(m, o, e, step) ==
   IF ~CanReset(m) THEN R(m, o, ExcClass(FALSE, e, "reset.exc", step), 0)
